@@ -21,11 +21,11 @@ async fn handle_define(
     name: &str,
     base_engine: &nu::Engine,
     store: &Store,
-    commands: &mut HashMap<String, Command>,
+    commands: &mut HashMap<(Scru128Id, String), Command>,
 ) {
     match register_command(frame, base_engine, store).await {
         Ok(command) => {
-            commands.insert(name.to_string(), command);
+            commands.insert((frame.context_id, name.to_string()), command);
         }
         Err(err) => {
             let _ = store.append(
@@ -71,7 +71,7 @@ pub async fn serve(
             handle_define(&frame, name, &base_engine, &store, &mut commands).await;
         } else if let Some(name) = frame.topic.strip_suffix(".call") {
             let name = name.to_owned();
-            if let Some(command) = commands.get(&name) {
+            if let Some(command) = commands.get(&(frame.context_id, name.clone())) {
                 let store = store.clone();
                 let frame = frame.clone();
                 let command = command.clone();
